@@ -205,6 +205,8 @@ Record ucfg := {
   u_max : Z;              (* MaxSizeBytes *)
   u_passes : nat;         (* MaxPass *)
   u_err_return : bool;    (* SymlinkErrStrategy = SymlinkErrReturn *)
+  u_ignore : bool;        (* SymlinkResolution = SymlinkIgnore: links are replaced by copies of their targets *)
+  u_cwd : path;           (* working directory of the process (SymlinkIgnore reads relative targets from it) *)
   u_marker : bytes        (* the uuid used by TargetOutsideRoot *)
 }.
 
@@ -248,10 +250,19 @@ Definition path_outside_base (fs : fsmap) (base full : bytes) : bool :=
   | Some resolved => negb (str_inside (clean resolved) b)
   end.
 
+(* os.ReadFile: the content (id, size) of the regular file a path resolves to; a relative path is
+   resolved from the working directory of the process *)
+Definition kread (fs : fsmap) (cwd : path) (s : bytes) : option (N * Z) :=
+  if is_nil s || (PATH_MAX1 <? blen s) then None else
+  match walk KERNEL_LINKS false fs true (if is_abs s then [] else cwd) (split_slash s) with
+  | Some p => match lookup fs p with Some (NFile c z) => Some (c, z) | _ => None end
+  | None => None
+  end.
+
 Definition ustate := (fsmap * list bytes)%type.
 
 (* one iteration of the loop in unpack(); the bool is "unpack returns an error here" *)
-Definition unpack_entry (cfg : ucfg) (req : bytes -> bool) (st : ustate) (e : entry) : ustate * bool :=
+Definition unpack_entry (cfg : ucfg) (req : bytes -> bool) (final : bool) (st : ustate) (e : entry) : ustate * bool :=
   let '(fs, tg) := st in
   if (u_max cfg <? e_size e)%Z then (st, false) else
   let cp := clean (e_name e) in
@@ -277,6 +288,18 @@ Definition unpack_entry (cfg : ucfg) (req : bytes -> bool) (st : ustate) (e : en
       if target_outside_root (u_marker cfg) cp target then ((fs1, tg), false) else
       let tpath := if is_abs target then join2 (u_dir cfg) target else target in
       let tg' := (if is_abs target then target else join2 (dir_of cp) target) :: tg in
+      if u_ignore cfg then
+        (* SymlinkIgnore: copy the target's content; a target that cannot be read is only an error
+           on the final pass *)
+        match kread fs1 (u_cwd cfg) tpath with
+        | None => ((fs1, tg'), final && u_err_return cfg)
+        | Some (cid, size) =>
+            match kwrite fs1 full cid size with
+            | Some fs2 => ((fs2, tg'), false)
+            | None => ((fs1, tg'), u_err_return cfg)
+            end
+        end
+      else
       match ksymlink fs1 tpath full with
       | Some fs2 => ((fs2, tg'), false)
       | None => ((fs1, tg'), u_err_return cfg)
@@ -284,19 +307,20 @@ Definition unpack_entry (cfg : ucfg) (req : bytes -> bool) (st : ustate) (e : en
   | _ => (st, false)
   end.
 
-Fixpoint unpack_pass (cfg : ucfg) (req : bytes -> bool) (st : ustate) (es : list entry) : ustate * bool :=
+Fixpoint unpack_pass (cfg : ucfg) (req : bytes -> bool) (final : bool) (st : ustate) (es : list entry) : ustate * bool :=
   match es with
   | [] => (st, false)
   | e :: r =>
-      let '(st', err) := unpack_entry cfg req st e in
-      if err then (st', true) else unpack_pass cfg req st' r
+      let '(st', err) := unpack_entry cfg req final st e in
+      if err then (st', true) else unpack_pass cfg req final st' r
   end.
 
 Fixpoint unpack_passes (n : nat) (cfg : ucfg) (req : bytes -> bool) (st : ustate) (es : list entry) : ustate * bool :=
   match n with
   | O => (st, false)
   | S n' =>
-      let '(st', err) := unpack_pass cfg req st es in
+      (* finalPass = (pass == MaxPass-1) *)
+      let '(st', err) := unpack_pass cfg req (match n' with O => true | _ => false end) st es in
       if err then (st', true) else unpack_passes n' cfg req st' es
   end.
 
@@ -386,21 +410,23 @@ Definition unpack_all (cfg : ucfg) (req : bytes -> bool) (fs : fsmap) (es : list
 (* ------------------------------------------------------------------ image.go (layer scanning) *)
 Definition WH : bytes := [46; 119; 104; 46].   (* ".wh." *)
 
-Definition vtree := list (bytes * bool).   (* pathtree of the current chain layer: key -> isWhiteout *)
+Definition vtree := list (bytes * (bool * bool)).   (* pathtree of the current chain layer: key -> (isWhiteout, isDir) *)
 
-Fixpoint vassoc (vt : vtree) (k : bytes) : option bool :=
+Fixpoint vassoc (vt : vtree) (k : bytes) : option (bool * bool) :=
   match vt with
   | [] => None
   | (q, w) :: r => if beq q k then Some w else vassoc r k
   end.
 
 (* pathtree.Get: a path that does not start with '/' falls back to the root node *)
-Definition vget (vt : vtree) (vp : bytes) : option bool :=
+Definition vget (vt : vtree) (vp : bytes) : option (bool * bool) :=
   match vp with
   | c :: k => if c =? SL then vassoc vt k else vassoc vt []
   | [] => vassoc vt []
   end.
 
+(* inWhiteoutDir (after 85791d6b, 1c13035d): an ancestor without a node does not end the climb; a
+   whiteout or a non-directory ancestor hides everything beneath it *)
 Fixpoint in_whiteout_dir (n : nat) (vt : vtree) (fp : bytes) : bool :=
   match n with
   | O => false
@@ -409,19 +435,18 @@ Fixpoint in_whiteout_dir (n : nat) (vt : vtree) (fp : bytes) : bool :=
       let d := dir_of fp in
       if beq fp d then false else
       match vget vt d with
-      | None => false
-      | Some true => true
-      | Some false => in_whiteout_dir n' vt d
+      | Some (wh, isdir) => if wh || negb isdir then true else in_whiteout_dir n' vt d
+      | None => in_whiteout_dir n' vt d
       end
   end.
 
 (* fillChainLayersWithFileNode restricted to the current chain layer; Insert on a non-absolute
    path fails and is ignored *)
-Definition vfill (vt : vtree) (vp : bytes) (wh : bool) : vtree :=
+Definition vfill (vt : vtree) (vp : bytes) (wh isdir : bool) : vtree :=
   if is_some (vget vt vp) then vt
   else if in_whiteout_dir (S (length vp)) vt vp then vt
   else match vp with
-       | c :: k => if c =? SL then (k, wh) :: vt else vt
+       | c :: k => if c =? SL then (k, (wh, isdir)) :: vt else vt
        | [] => vt
        end.
 
@@ -429,7 +454,7 @@ Definition vfill (vt : vtree) (vp : bytes) (wh : bool) : vtree :=
 Definition vpopulate (vt : vtree) (vp : bytes) : vtree :=
   snd (fold_left (fun (acc : bytes * vtree) (d : seg) =>
                     let running := join2 (fst acc) d in
-                    (running, if is_some (vget (snd acc) running) then snd acc else vfill (snd acc) running false))
+                    (running, if is_some (vget (snd acc) running) then snd acc else vfill (snd acc) running false true))
                  (split_slash (dir_of vp)) ([SL], vt)).
 
 Record lcfg := {
@@ -472,7 +497,7 @@ Definition layer_entry (cfg : lcfg) (st : lstate) (e : entry) : lstate * bool :=
                 | _ => SL :: join2 d b'
                 end in
       if is_some (vget vt vp) then (st, false) else
-      let ok (fs' : fsmap) := ((fs', vfill (vpopulate vt vp) vp wh), false) in
+      let ok (fs' : fsmap) := ((fs', vfill (vpopulate vt vp) vp wh (match e_type e with TDir => true | _ => false end)), false) in
       match e_type e with
       | TDir =>
           match kstat fs real with
@@ -519,7 +544,7 @@ Definition layer_run (cfg : lcfg) (fs : fsmap) (es : list entry) : fsmap * bool 
   match fs0 with
   | None => (fs, true)
   | Some fs0 =>
-      let '((fs1, _), err) := layer_entries cfg (fs0, [([], false)]) es in (fs1, err)
+      let '((fs1, _), err) := layer_entries cfg (fs0, [([], (false, true))]) es in (fs1, err)
   end.
 
 Fixpoint image_layers (max : Z) (marker : bytes) (fs : fsmap) (ls : list (bytes * list entry)) : fsmap * bool :=
